@@ -577,8 +577,17 @@ fn main() {
         // weighted towards non-aligned widths
         let weights: Vec<usize> = WIDTHS.iter().map(|&b| if b % 64 == 0 { 1 } else { 3 }).collect();
         let total: usize = weights.iter().sum();
-        for i in 0..steps {
-            if i % 256 == 0 && m.time_up() {
+        let mut i = 0;
+        loop {
+            if i >= steps {
+                // light lanes: another stretch of the walk while the time budget lasts
+                if !m.another_light_pass() {
+                    break;
+                }
+                i = 0;
+            }
+            i += 1;
+            if i % 64 == 0 && m.time_up() {
                 break;
             }
             let mut k = r.below(total);
